@@ -1,0 +1,3 @@
+// Package verifhooks re-exports internal packages for the external verification harness.
+// Everything but this file is guarded by the build tag "verif".
+package verifhooks
